@@ -92,6 +92,8 @@ pub struct Tbl {
     pub tys: Vec<Ty>,
     pub stable: bool,
     pub index_on0: bool,
+    /// rows were re-written (update / RewriteRows merge) after the index was created
+    pub moved_after_index: bool,
 }
 
 #[derive(Clone, Debug)]
@@ -158,7 +160,7 @@ impl Tbl {
         let params = WriteParams { max_rows_per_file: per, max_rows_per_group: 1024, enable_stable_row_ids: stable, ..Default::default() };
         let b = mk_batch(&tys, &cols, rows);
         let ds = Dataset::write(RecordBatchIterator::new(vec![Ok(b)], schema_for(&tys, &cols)), &uri, Some(params)).await.unwrap();
-        Tbl { dir, uri, ds, tys, stable, index_on0: false }
+        Tbl { dir, uri, ds, tys, stable, index_on0: false, moved_after_index: false }
     }
     pub fn ncols(&self) -> usize {
         self.tys.len()
@@ -276,6 +278,9 @@ impl Tbl {
         })
         .await?;
         self.ds = ds;
+        if self.index_on0 {
+            self.moved_after_index = true;
+        }
         Ok(n)
     }
 
@@ -291,6 +296,9 @@ impl Tbl {
             Ok(Err(e)) => Err(e),
             Ok(Ok((ds, stats))) => {
                 self.ds = ds;
+                if self.index_on0 {
+                    self.moved_after_index = true;
+                }
                 Ok(stats)
             }
         }
